@@ -47,7 +47,9 @@ def emit_cases(ctx, tier):
         specs = [(dict(N=3, A=1, MaxTerms=3, MaxList=3, Factors="{1, 2}", MaxSwaps=0), "InitSets", None),
                  (dict(N=3, A=2, MaxTerms=2, MaxList=2, Factors="{1}", MaxSwaps=0), "InitSets", None),
                  (dict(N=2, A=2, MaxTerms=3, MaxList=3, MaxSwaps=0), "InitSets", {"Factors": "SignedFactors"}),
-                 (dict(N=2, A=1, MaxTerms=3, MaxList=3, MaxSwaps=0), "InitLists", {"Factors": "SignedFactors"})]
+                 (dict(N=2, A=1, MaxTerms=3, MaxList=3, MaxSwaps=0), "InitLists", {"Factors": "SignedFactors"}),
+                 # rank-deficient cuts need >= 4 terms over two non-trivial symbols per site: unit factors keep this family small
+                 (dict(N=2, A=2, MaxTerms=4, MaxList=4, Factors="{1}", MaxSwaps=0), "InitSets", None)]
     else:
         specs = [(dict(N=3, A=2, MaxTerms=3, MaxList=3, Factors="{1}", MaxSwaps=0), "InitSets", None),
                  (dict(N=3, A=1, MaxTerms=3, MaxList=3, MaxSwaps=0), "InitSets", {"Factors": "SignedFactors"}),
